@@ -1,1 +1,75 @@
-(* placeholder *)
+(* C03 — PUS-C telemetry encode/decode is exact and inverse for ANY timestamp length.
+   Statements only; proofs are `exact <lemma>` from Proofs/PusTmProofs.v.
+   tm_layout (Spec/PusSpec.v): CCSDS primary header (type TM, secondary header present,
+   unsegmented, data length = total - 7), [0x20+time-ref; service; subservice; msg counter hi; lo;
+   destination hi; lo], timestamp, source data, CRC-16/CCITT-FALSE. *)
+From Coq Require Import ZArith List.
+From SP Require Import Base.Result Base.Bytes Base.Crc16 Model.SpacePacket Spec.SpacePacketSpec
+  Model.PusTc Model.PusTm Spec.PusSpec Proofs.PusTmProofs.
+Import ListNotations.
+Open Scope Z_scope.
+
+Theorem C03_pack_layout : forall service subservice apid seq msgcnt ref dest version stamp src,
+  tm_args_valid service subservice apid seq msgcnt ref dest version stamp src ->
+  exists t t', tm_new service subservice stamp src apid seq msgcnt ref dest version = Ok t /\
+    tm_pack t = Ok (tm_layout service subservice apid seq msgcnt ref dest version stamp src, t') /\
+    tm_sph t' = tm_sph t /\ tm_sec t' = tm_sec t /\ tm_src t' = tm_src t /\
+    tm_packet_len t = len (tm_layout service subservice apid seq msgcnt ref dest version stamp src) /\
+    dlen (tm_sph t) = len (tm_layout service subservice apid seq msgcnt ref dest version stamp src) - 7.
+Proof. exact tm_pack_layout. Qed.
+Print Assumptions C03_pack_layout.
+
+(* for every timestamp (any length, the decoder being handed that length) and any suffix *)
+Theorem C03_roundtrip : forall service subservice apid seq msgcnt ref dest version stamp src rest,
+  tm_args_valid service subservice apid seq msgcnt ref dest version stamp src -> wf_bytes rest ->
+  exists t p t' u,
+    tm_new service subservice stamp src apid seq msgcnt ref dest version = Ok t /\
+    tm_pack t = Ok (p, t') /\
+    p = tm_layout service subservice apid seq msgcnt ref dest version stamp src /\
+    tm_unpack (p ++ rest) (len stamp) = Ok u /\
+    tm_sph u = tm_sph t /\ tm_sec u = tm_sec t /\ tm_src u = tm_src t /\
+    tm_eqb u t = true /\ tm_eqb t u = true /\
+    (exists u', tm_pack u = Ok (p, u')) /\
+    tm_to_space_packet_pack t = Ok p /\
+    check_pus_crc p = true /\
+    tm_packet_len u = len p.
+Proof. exact tm_roundtrip. Qed.
+Print Assumptions C03_roundtrip.
+
+Theorem C03_unpack_spec : forall d ts, wf_bytes d -> 0 <= ts -> tm_unpack d ts = tm_decode_spec d ts.
+Proof. exact tm_unpack_spec. Qed.
+Print Assumptions C03_unpack_spec.
+
+Theorem C03_accept_inv : forall d ts t, wf_bytes d -> 0 <= ts -> tm_unpack d ts = Ok t ->
+  let n := sph_packet_len (tm_sph t) in
+  15 + ts <= n <= len d /\ crc16 (firstn (Z.to_nat n) d) = 0 /\
+  sph_unpack d = Ok (tm_sph t) /\ tms_stamp (tm_sec t) = slice d 13 (13 + ts) /\
+  tm_src t = slice d (13 + ts) (n - 2) /\ tm_crc t = Some (slice d (n - 2) n).
+Proof. exact tm_accept_inv. Qed.
+Print Assumptions C03_accept_inv.
+
+(* a declared length too small for header, timestamp and CRC is rejected *)
+Theorem C03_rejects_small_declared_length : forall d ts, wf_bytes d -> 0 <= ts -> (6 <= length d)%nat ->
+  (forall h, sph_unpack d = Ok h -> dlen h + 7 < 6 + 7 + ts + 2) ->
+  exists e, tm_unpack d ts = Err e /\ documented e = true.
+Proof. exact tm_unpack_rejects_small_decl. Qed.
+Print Assumptions C03_rejects_small_declared_length.
+
+Theorem C03_new_refuses : forall service subservice apid seq msgcnt ref dest version stamp src,
+  ~ (0 <= service < 256 /\ 0 <= subservice < 256 /\ 0 <= apid <= 2047 /\ 0 <= seq <= 16383 /\
+     0 <= msgcnt < 65536 /\ len stamp + len src <= 65527) ->
+  tm_new service subservice stamp src apid seq msgcnt ref dest version = Err EValue.
+Proof. exact tm_new_refuses. Qed.
+Print Assumptions C03_new_refuses.
+
+(* the service-17 wrapper is PusTm with service 17 *)
+Theorem C03_srv17_is_tm : forall apid subservice stamp ssc src version ref dest,
+  srv17_new apid subservice stamp ssc src version ref dest =
+    tm_new 17 subservice stamp src apid ssc 0 ref dest version /\
+  srv17_pack = tm_pack /\ srv17_unpack = tm_unpack.
+Proof. exact srv17_is_tm. Qed.
+Print Assumptions C03_srv17_is_tm.
+
+Example C03_args_valid_inhabited :
+  tm_args_valid 17 2 2047 16383 65535 15 65535 7 [1; 2; 3; 4; 5; 6; 7] [9; 255].
+Proof. exact tm_valid_example. Qed.
